@@ -28,6 +28,9 @@ type codewriter struct {
 	*bytes.Buffer
 
 	pkgs map[string]string // import -> alias
+
+	// elemByValue: containers store struct-like elements by value (value_type_in_container)
+	elemByValue bool
 }
 
 func newCodewriter() *codewriter {
